@@ -72,7 +72,7 @@ func genC02(t *rapid.T) DocCase {
 }
 
 func TestC02(t *testing.T) {
-	p := Prop[DocCase]{ID: "C02", Sub: "spelling", Gen: genC02, Run: runC02, Quick: 20000, Thorough: 100000}
+	p := Prop[DocCase]{ID: "C02", Sub: "spelling", Gen: genC02, Run: runC02, Quick: 20000, Thorough: 400000}
 	Enumerate(t, p, "boundary-pool", func(yield func(DocCase) bool) {
 		for _, v := range boundaryScalars() {
 			for _, vals := range [][]model.Value{{v}, {v.WithAnn(model.S("a"), model.S("name"))}, {model.StructV(model.Field{Name: model.S("f"), Val: v}, model.Field{Name: model.S("g"), Val: v})}, {model.SexpV(v, v)}} {
